@@ -330,9 +330,24 @@ def run(rep, tier):
     # the same for the interpreter object: what the callbacks of a run write is given back by reset()
     CONFIG_API = {'InterpreterImpl', '~InterpreterImpl', 'init', 'reset', 'deserialize', 'serialize', 'setActionLanguage', 'getActionLanguage', 'setFactory',
                   'addMonitor', 'removeMonitor', 'setupDOM', 'on', 'receive', 'cancel', 'cloneFrom'}
+    # helpers that only the configuration / restore entries call belong to those entries (an extracted adoptSessionId() of deserialize)
+    callers_of = {}
+    for f_ in fb.funcs.values():
+        for x_ in f_.walk():
+            cq_ = x_.get('callee', {}).get('q', '')
+            if cq_.startswith(impl + '::'):
+                callers_of.setdefault(cq_.split('::')[-1], set()).add((f_.rec, f_.q.split('::')[-1]))
+    config_api = set(CONFIG_API)
+    grew = True
+    while grew:
+        grew = False
+        for name_, cs_ in callers_of.items():
+            if name_ not in config_api and cs_ and all(rec_ == impl and c_ in config_api for rec_, c_ in cs_):
+                config_api.add(name_)
+                grew = True
     run_state = {}
     for m in fb.funcs.values():
-        if m.rec == impl and m.q.split('::')[-1] not in CONFIG_API:
+        if m.rec == impl and m.q.split('::')[-1] not in config_api:
             for name, node in written_members(m, impl).items():
                 run_state.setdefault(name, (node, set()))[1].add(m.q.split('::')[-1])
     rs_impl = fb.fn('uscxml::InterpreterImpl::reset')
